@@ -805,6 +805,9 @@ func (x *Exec) evalShift(e *ast.BinaryExpr, st *State, l, r Scalar, ti TInfo) Va
 			}
 		} else {
 			amt = fmt.Sprintf("(ite (>= %s %d) %s ((_ int2bv %d) %s))", r.T, ti.Bits, bvLit(big.NewInt(int64(ti.Bits)), ti.Bits), ti.Bits, r.T)
+			if ti.Bits == 64 || ti.Bits == 8 {
+				amt = fmt.Sprintf("(shamt%d %s)", ti.Bits, r.T)
+			}
 			if isIntLit(r.T) {
 				amt = fmt.Sprintf("((_ int2bv %d) %s)", ti.Bits, r.T)
 				if v, _ := new(big.Int).SetString(r.T, 10); v != nil {
